@@ -58,6 +58,8 @@ def _local_or_call(body, l, depth):
     if sd is not None and isinstance(sd[2], Term):
         rv = sd[2]
         return ("call", rv.callee, [expr_of(body, a, depth + 1) for a in rv.args], rv.d["cargs"], rv.d["atys"])
+    if sd is not None and not isinstance(sd[2], Term) and sd[2][0] == "use" and sd[2][1][0] == "k":
+        return expr_of(body, sd[2][1], depth + 1)
     return ("local", l)
 
 
@@ -101,6 +103,8 @@ def is_param_plus_const(e, param):
 def show(body, e):
     k = e[0]
     if k == "const":
+        if e[2] is None and len(e) > 3:
+            return str(e[3])
         return str(e[2]) if e[2] is not None else f"const:{e[1]}"
     if k in ("param", "local"):
         return body.local_name(e[1])
